@@ -1,6 +1,6 @@
 (* C18 - width conversions over the reals (kernel_smooth.fwhm2sigma/sigma2fwhm,
    fwhm.Resels.resel2fwhm/fwhm2resel), as the code is. *)
-From Coq Require Import Reals.
+From Coq Require Import Reals List.
 Open Scope R_scope.
 
 (* fwhm / np.sqrt(8 * np.log(2)) *)
@@ -21,3 +21,26 @@ Definition resel2fwhm (root : R -> R) (wedge r : R) : R :=
 (* pos_recipr(np.power(fwhm / (np.sqrt(4*np.log(2)) * self.wedge), self.D)) *)
 Definition fwhm2resel (D : nat) (wedge f : R) : R :=
   pos_recipr ((f / (sqrt (4 * ln 2) * wedge)) ^ D).
+
+(* ---------------- Resels.__init__: wedge ---------------- *)
+(* numpy.linalg.det of the coordmap's homogeneous affine; for the checks the
+   determinant itself is computed exactly by the model (cofactor expansion) *)
+Definition det3 (a b c d e f g h i : R) : R :=
+  a * (e * i - f * h) - b * (d * i - f * g) + c * (d * h - e * g).
+(* 4x4, expansion along the first row *)
+Definition det4 (a11 a12 a13 a14 a21 a22 a23 a24 a31 a32 a33 a34 a41 a42 a43 a44 : R) : R :=
+  a11 * det3 a22 a23 a24 a32 a33 a34 a42 a43 a44
+  - a12 * det3 a21 a23 a24 a31 a33 a34 a41 a43 a44
+  + a13 * det3 a21 a22 a24 a31 a32 a34 a41 a42 a44
+  - a14 * det3 a21 a22 a23 a31 a32 a33 a41 a42 a43.
+
+(* self.wedge = np.power(np.fabs(det(_transform)), 1./self.D) *)
+Definition wedge_of (root : R -> R) (detA : R) : R := root (Rabs detA).
+
+(* Resels.integrate: _resels = (resels * mask).sum(); nvoxel = mask.sum();
+   _fwhm = resel2fwhm(_resels / nvoxel); voxels as a list of (resel value, mask 0/1) *)
+Definition rsum (l : list R) : R := List.fold_right Rplus 0 l.
+Definition integrate (root : R -> R) (wedge : R) (vox : list (R * R)) : R * R * R :=
+  let total := rsum (List.map (fun p => fst p * snd p) vox) in
+  let n := rsum (List.map snd vox) in
+  (total, resel2fwhm root wedge (total / n), n).
